@@ -215,7 +215,7 @@ Proof.
   pose proof (refresh_vinv c s1 false I1) as I2.
   pose proof (refresh_flags c s1) as (F1 & _ & _).
   destruct (refresh c s1) as [s2 raised]. cbn [fst] in *.
-  destruct (raised && c_start_guarded c); cbn [fst].
+  destruct (raised && start_cleans c); cbn [fst].
   - apply (emit_cursor c _ true false). apply (VInvV_ext c s2); try reflexivity. assumption.
   - rewrite F1. exact I2.
 Qed.
@@ -287,7 +287,7 @@ Qed.
 
 (* cleanup_on_raise, complete for what is left behind: hooks, redirection, started AND cursor *)
 Theorem block_cleanup : forall c f0 pre body,
-  c_progress c = false \/ c_start_guarded c = true ->
+  c_progress c = false \/ start_cleans c = true ->
   lines_ok f0 = true -> forallb lines_ok pre = true -> forallb (op_text c) body = true ->
   let s := fst (run_block c f0 pre body) in
   cleanup_ok_b (Hn c) 0 (hooks s) (negb (redir s)) (out s) = true.
@@ -360,7 +360,7 @@ Proof.
   destruct (c_progress c); cbn [fst snd]; [|congruence].
   pose proof (refresh_fire c s1 H1) as R. destruct (refresh c s1) as [s2 raised]. cbn [fst snd] in *.
   destruct raised; cbn [andb].
-  - destruct (c_start_guarded c); reflexivity.
+  - destruct (start_cleans c); reflexivity.
   - cbn [fst snd]. exact R.
 Qed.
 
